@@ -201,7 +201,7 @@ def dense_efc_J(mm, d):
         out = np.zeros((d.nefc, mm.nv))
         mujoco.mju_sparse2dense(out, d.efc_J, d.efc_J_rownnz, d.efc_J_rowadr, d.efc_J_colind)
         return out
-    return np.array(d.efc_J).reshape(d.nefc, mm.nv)
+    return np.array(d.efc_J).reshape(-1)[: d.nefc * mm.nv].reshape(d.nefc, mm.nv)
 
 
 def canon_rows(*cols):
@@ -254,8 +254,15 @@ def op_putget(a):
     res["checked"] += 2
     if not np.array_equal(dense_moment(mm, d), dense_moment(mm, d2)):
         bad["actuator_moment"] = float(np.abs(dense_moment(mm, d) - dense_moment(mm, d2)).max())
-    if mm.ntendon and not np.array_equal(np.asarray(d.ten_J), np.asarray(d2.ten_J)):
-        bad["ten_J"] = "differs"
+    if mm.ntendon:
+        def dense_ten_J(dd):
+            out = np.zeros((mm.ntendon, mm.nv))
+            mujoco.mju_sparse2dense(out, dd.ten_J, mm.ten_J_rownnz, mm.ten_J_rowadr, mm.ten_J_colind)
+            return out
+        t0, t1 = dense_ten_J(d), dense_ten_J(d2)
+        if not np.array_equal(t0, t1):
+            bad["ten_J"] = ("read through the model's sparsity pattern (ten_J_rownnz/rowadr/colind) the tendon Jacobian differs by %.3g; "
+                            "original nonzeros %d, structural entries %d" % (float(np.abs(t0 - t1).max()), int((t0 != 0).sum()), int(mm.nJten)))
     res["checked"] += 1
     if not np.array_equal(np.asarray(d.M), np.asarray(d2.M)):
         bad["M"] = float(np.abs(np.asarray(d.M) - np.asarray(d2.M)).max())
@@ -413,6 +420,25 @@ DIRECTED_XML = {
 }
 
 
+TENDON_XML = ("<mujoco><worldbody><body><joint name='a' axis='0 1 0'/><geom size='.1'/><body pos='.3 0 0'><joint name='b' axis='0 1 0'/>"
+              "<geom size='.1'/></body></body></worldbody><tendon><fixed><joint joint='a' coef='0'/><joint joint='b' coef='1'/></fixed></tendon></mujoco>")
+
+
+def directed_tendon():
+    """a fixed tendon whose first structural Jacobian entry is numerically zero"""
+    mm = mujoco.MjModel.from_xml_string(TENDON_XML)
+    d = mujoco.MjData(mm)
+    mujoco.mj_forward(mm, d)
+    d2 = mjx.get_data(mm, mjx.put_data(mm, d))
+
+    def dense(dd):
+        out = np.zeros((mm.ntendon, mm.nv))
+        mujoco.mju_sparse2dense(out, dd.ten_J, mm.ten_J_rownnz, mm.ten_J_rowadr, mm.ten_J_colind)
+        return [float(x) for x in out.reshape(-1)]
+    return {"xml": TENDON_XML, "ten_J_orig": dense(d), "ten_J_roundtrip": dense(d2), "raw_orig": [float(x) for x in np.asarray(d.ten_J).reshape(-1)],
+            "raw_roundtrip": [float(x) for x in np.asarray(d2.ten_J).reshape(-1)], "colind": [int(x) for x in mm.ten_J_colind]}
+
+
 def op_directed(_a):
     """fixed inputs on which put_data/get_data and make_data were confirmed to deviate (stable oracle keys)"""
     out = {}
@@ -428,6 +454,7 @@ def op_directed(_a):
                      "orig_contact_dist": [float(x) for x in np.asarray(d.contact.dist)],
                      "get_data_of_make_data_ncon": int(mjx.get_data(mm, a).ncon),
                      "get_data_of_put_data_fresh_ncon": int(mjx.get_data(mm, mjx.put_data(mm, mujoco.MjData(mm))).ncon)}
+    out["tendon-zero-entry"] = directed_tendon()
     return json.dumps(out)
 
 
@@ -474,9 +501,15 @@ def main():
                 out = " ".join("%s=%d" % (k, int(getattr(S["mm"], k))) for k in SIZE_NAMES)
             else:
                 out = "bad-op"
-        except (IndexError, KeyError, AttributeError, ValueError) as e:
-            out = "bad-op"
-            sys.stderr.write("bad-op on %r: %s: %s\n" % (line[:80], type(e).__name__, e))
+        except Exception as e:  # pylint: disable=broad-except
+            if w and w[0] in ("putget", "makedata", "jitvmap", "directed"):
+                # an oracle op: the real code raised on a valid request
+                out = "raised %s: %s" % (type(e).__name__, str(e)[:300].replace("\n", " "))
+            elif isinstance(e, (IndexError, KeyError, AttributeError, ValueError)):
+                out = "bad-op"
+            else:
+                raise
+            sys.stderr.write("%s on %r: %s: %s\n" % (out[:6], line[:80], type(e).__name__, e))
         sys.stdout.write(out + "\n")
         sys.stdout.flush()
 
